@@ -37,7 +37,8 @@ RULE = (
     "k-th invocation raises, for every k <= K; oracle: C01 walker invariants, C02 index exactness and C03 sibling "
     "uniqueness hold afterwards and read-only operations leave the observation unchanged (also with the library's "
     "own DictWrapper.serialize_mapper as the failing mapper of save()/to_dict_list() on DictWrapper trees, with "
-    "key/value maps that name keys of the wrapped dicts: the dict contents are part of the observation). Non-trivial: refusal on a "
+    "key/value maps that name keys of the wrapped dicts: the dict contents are part of the observation; and for a list of "
+    "read-only operations without any callback - lookups with result limits, index access, iteration, visit, format, copy, save). Non-trivial: refusal on a "
     "tree with >= 3 nodes / fault with 1 < k <= K; distinct = distinct case."
 )
 ASSUMPTIONS = [
@@ -416,7 +417,58 @@ def run_faults(case, rec):
     # ---- the library's own mappers (DictWrapper) as the user callback of read-only operations ---------
     if not _run_dictwrap_faults(rec, spec, typed):
         return
+    if not _run_readonly(rec, spec, typed):
+        return
     rec.nt(mid >= 1)
+
+
+def _run_readonly(rec, spec, typed):
+    """Read-only operations without any callback (lookups with and without a result limit, index access, iteration in
+    every order, level-order visit, format, copy, dict form, save): tree and index are as before."""
+    tree, nodes = build(spec, typed=typed)
+    if not nodes:
+        return True
+    u = Uids()
+    before = (u, snapshot(tree, u, label=lambda n: repr(n.data)), index_probe(tree))
+    datas = []
+    for n in nodes:
+        if n.data not in datas:
+            datas.append(n.data)
+    first_inner = next((n for n in nodes if n.children), nodes[0])
+
+    def lookups():
+        for d in datas:
+            for k in (1, 2, None):
+                yield f"find_all(data,max_results={k})", lambda d=d, k=k: tree.find_all(d, max_results=k)
+                yield f"find_all(data_id,max_results={k})", lambda d=d, k=k: tree.find_all(data_id=hash(d), max_results=k)
+                yield f"node.find_all(data,max_results={k})", lambda d=d, k=k: first_inner.find_all(d, add_self=True, max_results=k)
+            yield "find_first(data)", lambda d=d: tree.find_first(d)
+            yield "data in tree", lambda d=d: d in tree
+            yield "tree[data]", lambda d=d: tree[d]
+        yield "find_all(match,max_results=1)", lambda: tree.find_all(match=".*", max_results=1)
+        for m in IterMethod:
+            yield f"iterator({m.value})", lambda m=m: list(tree.iterator(m))
+        yield "visit(level)", lambda: tree.visit(lambda n, memo: None, method=IterMethod.LEVEL_ORDER)
+        yield "node.visit(level)", lambda: first_inner.visit(lambda n, memo: None, add_self=True, method=IterMethod.LEVEL_ORDER)
+        yield "format", lambda: tree.format()
+        yield "copy", lambda: tree.copy()
+        yield "to_dict_list", lambda: tree.to_dict_list()
+        yield "save", lambda: tree.save(io.StringIO())
+        yield "get_random_node", lambda: tree.get_random_node()
+        yield "calc_height", lambda: tree.calc_height()
+
+    for name, fn in lookups():
+        rec.evals += 1
+        try:
+            with warnings.catch_warnings():
+                warnings.simplefilter("ignore")
+                fn()
+        except Exception:  # noqa: BLE001  (an ambiguous key etc.: whatever it raises, it is read-only)
+            pass
+        if not check_after(rec, name, tree, before, True, 0, 0):
+            return False
+    rec.cls("read-only-without-callback")
+    return True
 
 
 def _run_dictwrap_faults(rec, spec, typed):
